@@ -365,10 +365,12 @@ impl<E: Elem + Clone> Sut<E> {
                     if spare == 0 {
                         v.shrink_to_fit();
                     }
-                    let (p, l, c) = (v.as_ptr() as usize, v.len(), v.capacity());
+                    let l = v.len();
                     let mut c2 = CVec::from(v);
-                    if c2.as_ptr() as usize != p || c2.len() != l || c2.capacity() != c {
-                        bail2("vec:from", at("From<Vec> did not adopt the buffer/len/capacity"))?;
+                    // whether the Vec's buffer is adopted as it is or re-fitted first is the implementation's choice; the
+                    // capacity it reports must be that of the block it holds (checked by the allocator when it is grown / freed)
+                    if c2.len() != l || c2.capacity() < l {
+                        bail2("vec:from", at(&format!("From<Vec> of {} element(s): len {} capacity {}", l, c2.len(), c2.capacity())))?;
                     }
                     install(&mut c2)?;
                     *cv = Some(c2);
